@@ -99,6 +99,12 @@ def _pair_sorted(maxv=1e6):
     return st.tuples(_nn(maxv), _nn(maxv)).map(lambda p: sorted(p, key=float))
 
 
+def _pair_any(maxv=1e6):
+    # mostly min<=max; sometimes min>max (e.g. wait_exponential(min=120) with the default max=60): the module mirrors
+    # tenacity, whose formula applies the min floor last, so the documented result is then max(0, min)
+    return st.one_of(_pair_sorted(maxv), _pair_sorted(maxv), _pair_sorted(maxv), _pair_sorted(maxv), st.tuples(_nn(maxv), _nn(maxv)).map(list))
+
+
 _wait_leaf = st.one_of(
     st.tuples(st.just("fixed"), st.fixed_dictionaries({"wait": _nn(), "td": st.booleans()})),
     st.tuples(st.just("none"), st.just({})),
@@ -109,7 +115,7 @@ _wait_leaf = st.one_of(
             {
                 "multiplier": _nn(1e4),
                 "exp_base": st.one_of(st.sampled_from([1, 1.5, 2, 2.0, 3, 10]), st.floats(0, 100, allow_nan=False)),
-                "mm": _pair_sorted(),
+                "mm": _pair_any(),
                 "td": st.booleans(),
             }
         ),
@@ -142,7 +148,7 @@ _wait_leaf = st.one_of(
             {
                 "multiplier": _nn(1e4),
                 "exp_base": st.one_of(st.sampled_from([1, 2, 2.0, 3]), st.floats(0, 100, allow_nan=False)),
-                "mm": _pair_sorted(),
+                "mm": _pair_any(),
             }
         ),
     ),
@@ -177,7 +183,7 @@ class C07(Prop):
     )
     assumptions = [
         "leaf conditions are evaluated by the real leaf objects; the oracle is the truth table any()/all() over independently evaluated children",
-        "wait parameter domain: finite, non-negative, min<=max (documented meaning of the parameters)",
+        "wait parameter domain: finite, non-negative; min<=max mostly, and for the exponential families also min>max, where the tenacity formula the module mirrors (floor applied last) gives max(0, min)",
     ]
     budgets = {"quick": 4000, "thorough": 40000}
     wall = {"quick": 60.0, "thorough": 600.0}
@@ -449,7 +455,8 @@ class C07(Prop):
             mn, mx = float(p["mm"][0]), float(p["mm"][1])
             if p.get("td"):
                 mn, mx = timedelta(seconds=mn).total_seconds(), timedelta(seconds=mx).total_seconds()
-            return max(0.0, mn), mx, None, True
+            lo = max(0.0, mn)
+            return lo, max(mx, lo), (lo if mn > mx else None), True
         if k == "incrementing":
             mx = math.inf if p["max"] is None else float(p["max"])
             raw = float(p["start"]) + float(p["increment"]) * attempts
